@@ -89,8 +89,11 @@ def main(tier, seed):
     if quick:
         rnd.shuffle(progs)
         progs = progs[:1200]
+    # one ISA's synthetic model forwards in a fractional number of cycles (finding F49: added to an integer-typed
+    # latency it was truncated), the other's in a whole number or not at all
+    frac_isa = rnd.choice(["x86", "aarch64"])
     for isa, archs in (("x86", x86), ("aarch64", arm)):
-        fwd = rnd.choice([0.0, 2.0, 5.0])
+        fwd = rnd.choice([2.5, 0.5, 1.5]) if isa == frac_isa else rnd.choice([0.0, 2.0, 5.0, 3])
         mc.write_syn_models(isa, d, rnd, fwd)
         deps_run._models(isa, d)
         # R2: enumerated programs, synthetic flavour + real flavour on one model (all models in thorough)
